@@ -6,5 +6,5 @@ Theorem tm_unconvert_shape : forall v off, a_off v = Some off -> time_valid (a_f
     tm_unconvert v = OK (time_render (h, mi, s, Some ms, Some (mkoff sg hh mm (a_name v))))
     /\ (h < 24 /\ mi < 60 /\ s < 60 /\ ms < 1000)%N
     /\ (sg = SPlus \/ sg = SMinus) /\ (forall m, mm = Some m -> 1 <= m < 60)%N.
-Proof. exact tm_unconvert_shape_l. Qed.
+Proof. exact (tm_unconvert_shape_l nd_zeros). Qed.
 Print Assumptions tm_unconvert_shape.
